@@ -23,8 +23,20 @@ pub const BASH_EXCLUDED_VARIABLES: &[&str] = &[
     // variables from Scrut internals
     "__SCRUT_DECLARE_VARS_CMD",
     "__SCRUT_TEMP_STATE_PATH",
-    // variables set by scrut in every execution
+    // variables set by scrut in every execution (they are documented to be
+    // set anew for each test case, so they must not be restored from the state)
     "SCRUT_TEST",
+    "TESTDIR",
+    "TESTFILE",
+    "TESTSHELL",
+    "TMPDIR",
+    "LANG",
+    "LANGUAGE",
+    "LC_ALL",
+    "TZ",
+    "COLUMNS",
+    "CDPATH",
+    "GREP_OPTIONS",
     // variables from `man bash`
     "BASHOPTS",
     "BASH_ALIASES",
